@@ -7,6 +7,14 @@ int c_islin(int nval, double thresh, double tol, int npoints,
     int ierr=0, i, k, count, start, lintype;
     double dist, vprec, vnext, vcur;
 
+    /* Nothing to check with less than 2 values */
+    if(nval < 1)
+        return ierr;
+
+    islin[0] = 0;
+    if(nval < 2)
+        return ierr;
+
     /* initialisation */
     vprec = data[0];
     if(isnan(vprec)) vprec = thresh-1;
